@@ -114,7 +114,8 @@ impl Lexer {
     /// tab, or comma. Newlines are not considered whitespace as it is a
     /// token in the lexer.
     fn is_ws(ch: char) -> bool {
-        ch == ' ' || ch == '\t' || ch == ','
+        // A carriage return only ever precedes the newline of a CRLF line end
+        ch == ' ' || ch == '\t' || ch == ',' || ch == '\r'
     }
 
     /// Check if the given character is a character usable in a symbol.
@@ -261,6 +262,24 @@ impl Lexer {
         ))
     }
 
+    /// Skip the rest of the current line (up to, not including, the newline).
+    ///
+    /// After a malformed string or character literal the remainder of the
+    /// line is part of that mistake; lexing it would only add errors about
+    /// its backslashes and quotes.
+    fn skip_rest_of_line(&mut self) {
+        while let Some(current) = self.current() {
+            if current == '\n' {
+                break;
+            }
+            if self.peek(1).is_none() {
+                self.consume_char();
+                break;
+            }
+            self.consume_char();
+        }
+    }
+
     /// Create the error for an invalid string.
     fn invalid_string(
         &self,
@@ -402,6 +421,7 @@ impl Iterator for Lexer {
                 let string_str = match self.acc_string() {
                     Ok(s) => s,
                     Err(e) => {
+                        self.skip_rest_of_line();
                         return Some(Err(LexError::InvalidString(
                             Box::new(Token::new(
                                 TokenType::String(String::new()),
@@ -416,7 +436,6 @@ impl Iterator for Lexer {
 
                 let end = self.get_pos();
                 self.consume_char(); // Skip final '"'
-                self.consume_char();
 
                 Some(Token::new(
                     TokenType::String(string_str.clone()),
@@ -436,22 +455,26 @@ impl Iterator for Lexer {
                         '\\' => match self.escape_code() {
                             Some(ec) => ec,
                             None => {
-                                return Some(self.invalid_string(
+                                let error = self.invalid_string(
                                     c.to_string(),
                                     StringLexErrorType::InvalidEscapeSequence,
                                     start,
                                     self.get_pos(),
-                                ))
+                                );
+                                self.skip_rest_of_line();
+                                return Some(error);
                             }
                         },
                         // Can't have a literal newline in a character
                         '\n' => {
-                            return Some(self.invalid_string(
+                            let error = self.invalid_string(
                                 c.to_string(),
                                 StringLexErrorType::Newline,
                                 start,
                                 self.get_pos(),
-                            ))
+                            );
+                            self.skip_rest_of_line();
+                            return Some(error);
                         }
                         // Otherwise, return the character as is
                         c => c,
@@ -475,32 +498,49 @@ impl Iterator for Lexer {
 
                         // The character is unclosed
                         let end = self.get_pos();
-                        return Some(self.invalid_string(
-                            c.to_string(),
-                            StringLexErrorType::Unclosed,
-                            start,
-                            end,
-                        ));
+                        {
+                            let error = self.invalid_string(
+                                c.to_string(),
+                                StringLexErrorType::Unclosed,
+                                start,
+                                end,
+                            );
+                            self.skip_rest_of_line();
+                            return Some(error);
+                        }
                     }
                 }
 
                 let end = self.get_pos();
-                return Some(self.invalid_string(
-                    String::new(), // Empty string, since we are at EOF
-                    StringLexErrorType::Unclosed,
-                    start,
-                    end,
-                ));
+                {
+                    let error = self.invalid_string(
+                        String::new(), // Empty string, since we are at EOF
+                        StringLexErrorType::Unclosed,
+                        start,
+                        end,
+                    );
+                    self.skip_rest_of_line();
+                    return Some(error);
+                }
             }
             _ => {
                 // symbol
                 let start = self.get_pos();
                 let mut symbol_str: String = String::new();
 
-                // If the first character is not a symbol char -> error
+                // If the first character is not a symbol char -> error. (Ending
+                // the token stream here instead would silently drop the rest
+                // of the file, and only of this file when it is included.)
                 if let Some(current) = self.current() {
                     if !Self::is_symbol_item(current) {
-                        return None;
+                        let pos = self.get_range();
+                        self.consume_char();
+                        return Some(Err(LexError::UnexpectedToken(Box::new(Token::new(
+                            TokenType::Symbol(current.to_string()),
+                            current.to_string(),
+                            pos,
+                            self.source_id,
+                        )))));
                     }
                 }
 
